@@ -514,7 +514,9 @@ class DAGRunConcurrentManager(DAGRunManagerLike):
 
             if dag.is_oneof and self.__has_subgraph_error(dag):
                 logger.debug('An error has been found in the %s', dag)
-                self._stop_coro_tasks(*local_tasks)
+
+                # The node tasks that have been started here are not cancelled: other sub-pipelines may be waiting
+                # for the very same nodes, and a cancelled execution would leave them without a result.
 
                 # We must unlock descendants because the next OneOf subgraph should start the process.
                 # Otherwise, the entire subgraph will be locked.
